@@ -33,7 +33,7 @@ theorem cacheSound_preserved {V : Variant} {P : Prog} (hC : V.cseSubtreeFromDb =
     {c0 : Code} {w0 : World} {st st' : St} {r : Res} {u : List TH}
     (hI : Inv V P c0 w0 st) (h : runOne V P st ri = some (st', r, u)) :
     Inv V P ri.code ri.world st' ∧ Den P ri.code ri.world ri.root r := by
-  have := eval_sound (c := ri.code) (w := ri.world) hC hB hK hF ri.fuel _ _ _ _ _ (inv_newExec hI) hR h
+  have := eval_sound (c := ri.code) (w := ri.world) hC hB hK hF ri.fuel _ _ _ _ _ (inv_newExec ri.errRec hI) hR h
   exact ⟨this.1, this.2.1⟩
 
 /-- an execution on an empty backend computes the denotation -/
@@ -140,7 +140,7 @@ def catchTbl : List (TH × Spec) :=
   [(⟨0, 0⟩, .ret (.catch (.call 1 .arg) 0 2)), (⟨1, 0⟩, .raise 0), (⟨1, 1⟩, .ret (.lit 5)), (⟨2, 0⟩, .ret (.lit 0))]
 
 def catchHist : List RunIn :=
-  [⟨code [], fsConst 1, .call 0 (i 0), 20⟩, ⟨code [(1, 1)], fsConst 1, .call 0 (i 0), 20⟩]
+  [{ code := code [], fs := fsConst 1, root := .call 0 (i 0), fuel := 20 }, { code := code [(1, 1)], fs := fsConst 1, root := .call 0 (i 0), fuel := 20 }]
 
 /-- **refuted (DESIGN F1, current behaviour of /repo)**: run; edit the caught task so that it returns 5; run again
 on the same backend: the recovery value 0 is replayed, an empty backend gives 5.  (`Variant.repaired`: the other
@@ -159,7 +159,7 @@ example : (runHist ⟨true, true, true⟩ (tableProg catchTbl) {} catchHist).map
 def fileTbl : List (TH × Spec) := [(⟨0, 0⟩, .ret (.add (.call 1 (.file 0)) (.lit 1))), (⟨1, 0⟩, .ret .numarg)]
 
 def fileHist : List RunIn :=
-  [⟨code [], fsConst 1, .call 0 (i 0), 20⟩, ⟨code [], fsConst 2, .call 0 (i 0), 20⟩]
+  [{ code := code [], fs := fsConst 1, root := .call 0 (i 0), fuel := 20 }, { code := code [], fs := fsConst 2, root := .call 0 (i 0), fuel := 20 }]
 
 /-- **refuted on the code as found** (`simpleExprValid = false`; repaired by C02-simple-expression-validity.fix.diff):
 the file is rewritten between two executions, the cached `t1(File(p0, stamp 1)) + 1` is replayed. -/
@@ -178,7 +178,7 @@ def twinTbl : List (TH × Spec) :=
    (⟨2, 0⟩, .ret (.call 3 .arg)), (⟨3, 0⟩, .ret (.add .arg (.lit 10))), (⟨3, 1⟩, .ret (.add .arg (.lit 100)))]
 
 def twinHist : List RunIn :=
-  [⟨code [] [1], fsConst 1, .call 0 (i 0), 30⟩, ⟨code [(0, 1), (3, 1)] [1], fsConst 1, .call 0 (i 0), 30⟩]
+  [{ code := code [] [1], fs := fsConst 1, root := .call 0 (i 0), fuel := 30 }, { code := code [(0, 1), (3, 1)] [1], fs := fsConst 1, root := .call 0 (i 0), fuel := 30 }]
 
 /-- **refuted on the code as found** (`cseSubtreeFromDb = false`; repaired by C03-subtree-tasks.fix.diff): the shallow
 task t1 ran over a CSE-served t2(1) and recorded the subtree {t1, t2} without t3; after t3 is edited the shallow hit
